@@ -113,6 +113,23 @@ var scenarios = [][]string{
 		"c adv 1",
 		"c q wire u2 f t -",
 	},
+	{ // an alias whose target lies below a subtree cut in its last seconds adopts the cut's NXDOMAIN
+		"c new 0 f",
+		"c cutrec 1 s300/300,g300/300/4000000,p300,g300/300/4000000 8",
+		"c adv 6",
+		"c q msg n0 f t n0=cu1:p600:-:600:-",
+		"c q wire n0 f t -",
+		"c adv 1",
+		"c q msg n0 f t -",
+		"c adv 1",
+		"c q wire n0 f t -",
+		"c q msg u1 f t -",
+		"c cutrec 2 s300/300,g300/300/4000000,p300,g300/300/4000000 -",
+		"c q msg n1 f f n1=cu2:p60:-:-:-",
+		"c adv 59",
+		"c q dwire n1 f t -",
+		"c q msg u2 f t -",
+	},
 	{ // additional-section records decay with the entry on every route; `expire` above 24 h
 		"c new 0 f 0 604800",
 		"c q msg n0 f t n0=p:p300:-:-:-:p300,p600",
@@ -602,7 +619,9 @@ func (g *genHist) genSpec(name string, kind byte, tgt int, ecs bool) string {
 	k := string(kind)
 	if kind == 'c' {
 		k = fmt.Sprintf("c%d", tgt)
-		if tgt >= 100 {
+		if tgt >= 200 {
+			k = fmt.Sprintf("cu%d", tgt-200)
+		} else if tgt >= 100 {
 			k = fmt.Sprintf("cp%d", tgt-100)
 		}
 	}
@@ -617,6 +636,9 @@ func (g *genHist) pickKind(idx int) (byte, int) {
 	r := g.r
 	if len(g.proofs) > 0 && r.Chance(1, 6) {
 		return 'c', 100 + vlib.Pick(r, g.proofs) // alias onto an owner of the proof zone
+	}
+	if len(g.cuts) > 0 && r.Chance(1, 5) {
+		return 'c', 200 + vlib.Pick(r, g.cuts) // alias onto a name below a recorded subtree cut
 	}
 	if idx < nNames-1 && r.Chance(3, 10) {
 		return 'c', idx + 1 + r.Intn(nNames-1-idx)
